@@ -1,12 +1,12 @@
 #!/bin/bash
 # tools/try_benign.sh <BID> : run all 19 quick checks on every behaviour-preserving refactoring in /tmp/seed/out-<BID>
 BID=$1
-for f in /tmp/seed/out-$BID/benign-*.diff; do
+for f in ${BDIR:-/verif/benign}/$BID/benign-*.diff; do
   k=$(basename $f .diff)
   T=$(mktemp -d /tmp/benign.XXXX)
   rsync -a --exclude target --exclude .git /repo/ $T/
   if ! (cd $T && patch -p1 -s < $f >/dev/null 2>&1); then echo "== $BID/$k PATCH-FAILED"; rm -rf $T; continue; fi
-  echo "== $BID/$k: $(head -3 /tmp/seed/out-$BID/$k.md 2>/dev/null | tr '\n' ' ' | cut -c1-200)"
+  echo "== $BID/$k: $(head -3 ${BDIR:-/verif/benign}/$BID/$k.md 2>/dev/null | tr '\n' ' ' | cut -c1-200)"
   W=${W:-420} /verif/tools/allchecks.sh $T | grep -v "violations=0"
   rm -rf $T
 done
